@@ -85,6 +85,11 @@ func (fx *FuncExec) run() {
 
 	// captured variables (for literals): treated as extra parameters
 	if fi.Lit != nil {
+		// self: the function value being executed (for contracts that speak about the closure itself)
+		self := fx.fresh("self", "Fn")
+		st.assume(eq("(fn_code "+self+")", fmt.Sprint(fx.ctx.litCode(fi.Key))))
+		st.assume(not(eq(self, "fn_nil")))
+		fx.selfTerm = self
 		for _, v := range fx.freeVars(fi.Lit) {
 			c := fx.fresh("cap_"+v.Name(), fx.reg.SortOf(v.Type()))
 			fx.captured[v] = true
@@ -94,6 +99,10 @@ func (fx *FuncExec) run() {
 			for _, f := range fx.typingFacts(st, c, v.Type()) {
 				st.assume(f)
 			}
+			uf := "cap_" + sanitize(fi.Key) + "_" + v.Name()
+			vs := fx.reg.SortOf(v.Type())
+			fx.reg.declFun(uf, fmt.Sprintf("(declare-fun %s (Fn) %s)", uf, vs))
+			st.assume(eq("("+uf+" "+self+")", c))
 		}
 	}
 	bind := func(v *types.Var, hint string) {
